@@ -697,14 +697,18 @@ def argument_rule_case():
     a, b, c = net.connect(), net.connect(), net.connect()
     b.call_bus('AddMatch', 's', ["type='signal',arg0='foo'"])
     c.call_bus('AddMatch', 's', ["type='signal',arg1=''"])
+    d = net.connect()
+    d.call_bus('AddMatch', 's', ["type='signal',arg10='k10'"])          # argument indices have up to two digits (0 .. 63)
+    d.drain()
     for p in (a, b, c):
         p.drain()
-    sent = [(None, None), ('s', ['foo']), ('s', ['bar']), ('ss', ['foo', '']), ('ss', ['x', 'y']), ('ss', ['x', '']), ('u', [5])]
+    sent = [(None, None), ('s', ['foo']), ('s', ['bar']), ('ss', ['foo', '']), ('ss', ['x', 'y']), ('ss', ['x', '']), ('u', [5]),
+            ('s' * 11, ['a%d' % i for i in range(10)] + ['k10']), ('s' * 11, ['a%d' % i for i in range(10)] + ['other'])]
     for k, (sig, body) in enumerate(sent):
         a.send(message.SignalMessage('/o', 'S%d' % k, 'org.e.I', signature=sig, body=body))
     want_b = ['S1', 'S3']
     want_c = ['S3', 'S5']
-    for who, want, rule in ((b, want_b, "arg0='foo'"), (c, want_c, "arg1=''")):
+    for who, want, rule in ((b, want_b, "arg0='foo'"), (c, want_c, "arg1=''"), (d, ['S7'], "arg10='k10'")):
         got = [x.member for x in who.drain() if getattr(x, 'member', '').startswith('S')]
         if got != want:
             return 'a subscriber with the rule %s received the signals %r of %r, expected %r' % (rule, got, [(('S%d' % k), body) for k, (_s, body) in enumerate(sent)], want)
@@ -727,6 +731,24 @@ def empty_rule_case():
     got = [x.member for x in b.drain() if getattr(x, 'member', None) == 'Any']
     if got != ['Any']:
         return 'a connection holding the rule without constraints received %r of a broadcast' % (got,)
+    return None
+
+
+def self_addressed_case():
+    """a connection may address a message to itself - by its unique name or by a well-known name it owns: delivered once"""
+    from txdbus import message
+    net = Net()
+    a = net.connect()
+    a.call_bus('RequestName', 'su', ['org.verif.Self', 0])
+    a.drain()
+    for dest in (a.name, 'org.verif.Self'):
+        for what, m in (('a signal', message.SignalMessage('/o', 'Own', 'org.e.I', destination=dest, signature='s', body=['x'])),
+                        ('a call', message.MethodCallMessage('/o', 'Own', interface='org.e.I', destination=dest)),
+                        ('a return', message.MethodReturnMessage(77, destination=dest))):
+            a.send(m)
+            got = [x for x in a.drain() if getattr(x, 'member', None) == 'Own' or getattr(x, 'reply_serial', None) == 77]
+            if len(got) != 1 or got[0].sender != a.name:
+                return '%s a connection addressed to itself (%s) was delivered %d times' % (what, dest, len(got))
     return None
 
 
@@ -863,7 +885,7 @@ def takeover_by_waiter_case():
 
 def bounded(tier, seed):
     n = 0
-    for case in (late_loss_of_refused_connection_case, order_case, prehello_case, dead_subscriber_case, takeover_case, namespace_subscription_case, forged_wellknown_sender_case, sender_rule_case, spaced_rule_text_case, argument_rule_case, empty_rule_case, to_the_bus_case, big_endian_client_case, withdrawn_claim_case, takeover_by_waiter_case):
+    for case in (late_loss_of_refused_connection_case, order_case, prehello_case, dead_subscriber_case, takeover_case, namespace_subscription_case, forged_wellknown_sender_case, sender_rule_case, spaced_rule_text_case, argument_rule_case, empty_rule_case, self_addressed_case, to_the_bus_case, big_endian_client_case, withdrawn_claim_case, takeover_by_waiter_case):
         n += 1
         try:
             f = case()
